@@ -167,11 +167,42 @@ func init() {
 	vk.Register("C05", "sort", runSort)
 	vk.Register("C05", "sortx", runSort)
 	vk.Register("C06", "pos", runC06)
+	vk.Register("C06", "bigpos", runBigPos)
 }
 
 func TestC05Hist(t *testing.T) {
 	h := vk.Start(t, "C05", "hist")
 	vk.Rapid(h, t, genHeapCase(false), runC05)
+}
+
+// TestC06BigPos: heaps of millions of elements (see BigPosCase).
+func TestC06BigPos(t *testing.T) {
+	h := vk.Start(t, "C06", "bigpos")
+	slot := h.Slot()
+	tl := vk.NewTally()
+	cases := []BigPosCase{{N: 3 << 20, Pops: 3}, {N: 1<<21 + 5, Pops: 2, Desc: true}}
+	if h.Thorough() {
+		cases = append(cases, BigPosCase{N: 1<<22 + 3, Pops: 4}, BigPosCase{N: 1 << 23, Pops: 3, Desc: true}, BigPosCase{N: 1<<20 - 1, Pops: 5},
+			BigPosCase{N: 5 << 20, Pops: 3}, BigPosCase{N: 1 << 24, Pops: 2})
+	}
+	for i, c := range cases {
+		if h.Failed() {
+			break
+		}
+		o := &vk.Obs{}
+		slot.Enter(c)
+		msg := vk.Guard(func() string { return runBigPos(c, o) })
+		slot.Leave()
+		if msg != "" {
+			p := h.Fail(c, msg)
+			t.Fatalf("VK-VIOLATION property=C06 leg=bigpos replay=%s\n%s", p, msg)
+		}
+		tl.AddObs(o)
+		if i < 2 {
+			h.Sample(c, o.NT)
+		}
+	}
+	h.MergeTally(tl)
 }
 
 func TestC06Pos(t *testing.T) {
